@@ -458,6 +458,21 @@ def level_conv():
     for t1, v1 in padded[::7]:
         for t2, v2 in padded[::5]:
             emit('lit2', [t1, t2], lambda: enc([v1, v2]))
+    # chains of literals in one expression (what a compiler may fold ahead of time): + - * of two,
+    # three and four int literals around the int64 boundaries, left to right and parenthesised
+    lits = [0, 1, 2, 2 ** 31, 2 ** 62, 2 ** 63 - 1, 2 ** 63, 2 ** 64 - 1]
+    for a in lits:
+        for b in lits:
+            for c in lits:
+                emit('litexpr', ['%d + %d + %d' % (a, b, c)], lambda: enc(a + b + c))
+                emit('litexpr', ['%d + (%d + %d)' % (a, b, c)], lambda: enc(a + b + c))
+                emit('litexpr', ['%d - %d - %d' % (a, b, c)], lambda: enc(a - b - c))
+                emit('litexpr', ['%d * %d + %d' % (a, b, c)], lambda: enc(a * b + c))
+                emit('litexpr', ['%d + %d * %d' % (a, b, c)], lambda: enc(a + b * c))
+                emit('litexpr', ['-%d + %d - -%d' % (a, b, c)], lambda: enc(-a + b + c))
+    for a in lits[3:]:
+        emit('litexpr', ['%d + %d + %d + %d' % (a, a, a, a)], lambda: enc(4 * a))
+        emit('litexpr', ['%d * %d * %d' % (a, a, a)], lambda: enc(a ** 3))
     for x in FLOATS:
         if finite(x):
             for form in ('%r', '%.20e', '%.1100f'):
